@@ -166,6 +166,15 @@ func gcStep(m *Machine, md *Model, o Op, step int, reclaim bool) *Mismatch {
 		}
 	}
 	// C18 (ii): files outside the range: unchanged, except one earlier file that only grew
+	grown := 0
+	for id, d := range before {
+		if a, ok := after[id]; ok && id < begin && len(d) > 0 && len(a) > len(d) {
+			grown++
+		}
+	}
+	if grown > 1 {
+		return &Mismatch{Step: step, Op: o.String(), Where: "files before the range", Want: "at most one earlier file appended to", Got: fmt.Sprintf("%d earlier files grew", grown), Class: "gc-outside-range"}
+	}
 	for id, d := range before {
 		if id >= begin && id <= end {
 			continue
